@@ -74,6 +74,23 @@ Proof.
 Qed.
 Print Assumptions C13_object_oracle_accepts_model.
 
+(* WHICH objects changed: the run lists the zones of all fixture objects whose serialised state differs after a message;
+   the oracle demands entitlement for EACH of them (code 13 otherwise) and accepts what the model says changed - the one
+   object the message names, when it is applied; a message naming an object type the handler does not know changes nothing *)
+Theorem C13_changed_objects_oracle_accepts_model : forall t c s om ts i name k zp known,
+  mz_wf t -> nth_error mz_class_table i = Some (name, k) -> mz_effectful k = true ->
+  (forall r, mz_lookup name = Some r -> ~ mz_finding_anon_cert s r) ->
+  mz_applied (mz_run_objk_i t c s om ts i zp false) = false /\
+  mz_oracle_i t c s (mz_om om) i (mz_run_objk_i t c s om ts i zp known) = 0 /\
+  mz_oracle_changed_i t c s (mz_om om) i (mz_changed_zones (mz_run_objk_i t c s om ts i zp known) om) = 0.
+Proof.
+  intros t c s om ts i name k zp known W N EF NF.
+  exact (conj (mz_run_objk_unknown t c s om ts i zp)
+        (conj (mz_oracle_objk_accepts t c s om ts i name k zp known W N NF)
+              (mz_oracle_changed_k_accepts t c s om ts i name k zp known W N EF NF))).
+Qed.
+Print Assumptions C13_changed_objects_oracle_accepts_model.
+
 (* non-vacuity: master (0) - satellite (1); host in the satellite zone, its notification in the master zone.  On the master
    the satellite may move the next check of the host, not the next notification of the master's notification; the master's
    own peer may do both; and the row of event::SetNextNotification reads the notification, not its checkable *)
